@@ -340,11 +340,12 @@ func (C02) Execute(t *testing.T, sc *core.Scenario) *core.Result {
 			}
 		}
 	}
+	s.OnRelease = func(t *core.Task) { sos.SetActor(t.Actor) }
 	for i := 0; i < b.NTasks; i++ {
-		s.Go(fmt.Sprintf("committer%d", i), committer(i))
+		s.Go(fmt.Sprintf("committer%d", i), committer(i)).Actor = i + 1
 	}
 	for i := 0; i < b.Readers; i++ {
-		s.Go(fmt.Sprintf("reader%d", i), reader(i))
+		s.Go(fmt.Sprintf("reader%d", i), reader(i)).Actor = 50 + i
 	}
 	if msg := s.Run(); msg != "" {
 		res.Panic = "scheduler: " + msg + "\n" + strings.Join(s.Trace, "\n")
